@@ -910,60 +910,75 @@ impl<'a> World<'a> {
         let mut accepted_desc = String::new();
         let mut accepted_trace = String::new();
         let mut refused_below: Option<(usize, usize)> = None;
-        if let Some(lp) = listener_pos {
-            let newfds: Vec<RawFd> = after.difference(&before).cloned().collect();
-            let reached = match &r {
-                Ok(Ok(_)) => true,
-                // a call that reports shutdown may or may not have handled the events that came
-                // before the kill switch's in the batch (the property does not say): decide from
-                // what can be observed - a new connection in the table, or the 503 / hang-up at
-                // the client that was first in the accept queue
-                Ok(Err(ServerError::ShutdownEvent)) => {
-                    let _ = (lp, kill_pos);
-                    !newfds.is_empty()
-                        || self.pending_accept.front().map_or(false, |c| {
-                            let cl = &self.clients[*c];
-                            if cl.closed {
-                                return false;
-                            }
-                            let mut pfd = libc::pollfd { fd: cl.fd, events: libc::POLLIN | 0x2000, revents: 0 };
-                            let n = unsafe { libc::poll(&mut pfd, 1, 0) };
-                            n > 0 && pfd.revents & (libc::POLLIN | libc::POLLHUP | 0x2000 | libc::POLLERR) != 0
-                        })
-                }
-                _ => !newfds.is_empty(),
+        {
+            // Accept bookkeeping is observational: new connections in the server's table are
+            // matched, in ascending descriptor order (= accept order: the kernel hands out the
+            // lowest free number), with the clients waiting at the listener in connect order; a
+            // waiting client whose socket shows the server's hang-up was turned away. How many
+            // waiting clients one call handles, and whether a call that reports shutdown handled
+            // the listener at all, is the implementation's business.
+            let _ = (listener_pos, kill_pos);
+            let mut newfds: Vec<RawFd> = after.difference(&before).cloned().collect();
+            newfds.sort();
+            let hung_up = |fd: RawFd| -> bool {
+                let mut pfd = libc::pollfd { fd, events: libc::POLLIN | 0x2000, revents: 0 };
+                let n = unsafe { libc::poll(&mut pfd, 1, 0) };
+                // POLLHUP: both directions are down - the peer closed (a client's own SHUT_RD only
+                // raises POLLRDHUP, its own SHUT_WR nothing)
+                n > 0 && pfd.revents & (libc::POLLHUP | libc::POLLERR) != 0
             };
-            if reached {
-                if let Some(c) = self.pending_accept.pop_front() {
-                    if let Some(fd) = newfds.first() {
-                        self.clients[c].accepted = true;
-                        self.clients[c].server_fd = Some(*fd);
-                        self.clients[c].limit_at_accept = self.limit;
-                        if self.released_fds.contains(fd) {
-                            self.facts |= 1 << 2;
-                            if self.outstanding.iter().any(|o| o.client != c && self.clients[o.client].closed) {
-                                self.facts |= 1 << 3;
-                            }
+            let call_completed = matches!(&r, Ok(Ok(_)));
+            let mut handled = 0usize;
+            let mut descs: Vec<String> = vec![];
+            let mut traces: Vec<String> = vec![];
+            while let Some(&c) = self.pending_accept.front() {
+                // unobservable from the client's side: it closed, or shut down both directions itself
+                let closed_by_itself = self.clients[c].closed || (self.clients[c].shut_rd && self.clients[c].shut_wr);
+                let refused_seen = !closed_by_itself && hung_up(self.clients[c].fd);
+                if !refused_seen && !newfds.is_empty() {
+                    let fd = newfds.remove(0);
+                    self.pending_accept.pop_front();
+                    self.clients[c].accepted = true;
+                    self.clients[c].server_fd = Some(fd);
+                    self.clients[c].limit_at_accept = self.limit;
+                    if self.released_fds.contains(&fd) {
+                        self.facts |= 1 << 2;
+                        if self.outstanding.iter().any(|o| o.client != c && self.clients[o.client].closed) {
+                            self.facts |= 1 << 3;
                         }
-                        if self.cfg.small_sndbuf {
-                            let v: libc::c_int = 1;
-                            unsafe {
-                                libc::setsockopt(*fd, libc::SOL_SOCKET, libc::SO_SNDBUF, &v as *const _ as *const libc::c_void, 4);
-                            }
-                        }
-                        accepted_desc = format!("accepted client {}", c);
-                        accepted_trace = format!("accepted client {} as descriptor {}", c, fd);
-                    } else {
-                        self.clients[c].refused = true;
-                        self.facts |= 1 << 4;
-                        if before.len() < 10 {
-                            refused_below = Some((c, before.len()));
-                        }
-                        accepted_desc = format!("refused client {}", c);
-                        accepted_trace = accepted_desc.clone();
                     }
+                    if self.cfg.small_sndbuf {
+                        let v: libc::c_int = 1;
+                        unsafe {
+                            libc::setsockopt(fd, libc::SOL_SOCKET, libc::SO_SNDBUF, &v as *const _ as *const libc::c_void, 4);
+                        }
+                    }
+                    descs.push(format!("accepted client {}", c));
+                    traces.push(format!("accepted client {} as descriptor {}", c, fd));
+                    handled += 1;
+                    continue;
                 }
+                // a client that closed its own socket cannot be observed: if the listener fired in
+                // a call that ran to completion, the first such client has been taken off the
+                // accept queue and dropped (as a refusal)
+                let dropped_unseen = closed_by_itself && handled == 0 && call_completed && listener_pos.is_some();
+                if refused_seen || dropped_unseen {
+                    self.pending_accept.pop_front();
+                    self.clients[c].refused = true;
+                    self.facts |= 1 << 4;
+                    let open_then = before.len() + descs.iter().filter(|d| d.starts_with("accepted")).count();
+                    if open_then < 10 && refused_below.is_none() {
+                        refused_below = Some((c, open_then));
+                    }
+                    descs.push(format!("refused client {}", c));
+                    traces.push(format!("refused client {}", c));
+                    handled += 1;
+                    continue;
+                }
+                break;
             }
+            accepted_desc = descs.join(", ");
+            accepted_trace = traces.join(", ");
         }
         for c in self.clients.iter_mut() {
             if let Some(sfd) = c.server_fd.or_else(|| None) {
